@@ -173,6 +173,77 @@ def mod_null_eq(a, b):
     return type(a) is type(b) and a == b
 
 
+_STRICT = {}
+
+
+def typed_eq(mmv, t, a, b, depth=0):
+    """the re-serialised JSON b equals the input a up to the documented null rule, read against the metamodel type t:
+    an absent null-admitting property may (must: C10) come back as null; an explicit null at an OPTIONAL property whose type does
+    not admit null in the or/null sense (LSPAny) may be absent (pinned reading); nothing else may differ; at an `or` some
+    alternative valid for a must relate a and b."""
+    import strictpy
+    st = _STRICT.setdefault(id(mmv), strictpy.Strict(mmv))
+    k = t["kind"]
+
+    def props_eq(ps):
+        if not isinstance(a, dict) or not isinstance(b, dict):
+            return False
+        if not ps:
+            return mod_null_eq(a, b)
+        for pn, p in ps.items():
+            na = mmv.null_adm(p["type"])
+            if pn in a:
+                if pn in b:
+                    if not typed_eq(mmv, p["type"], a[pn], b[pn], depth + 1):
+                        return False
+                elif not (a[pn] is None and p.get("optional") and not na):
+                    return False
+            elif pn in b and not (na and b[pn] is None):
+                return False
+        return all(x in ps for x in b)
+    if k == "reference":
+        n = t["name"]
+        if n in ("LSPAny", "LSPObject", "LSPArray"):
+            return mod_null_eq(a, b) and mod_null_eq(b, a)
+        if n in mmv.S:
+            return props_eq(mmv.flat(n))
+        if n in mmv.A:
+            return typed_eq(mmv, mmv.A[n]["type"], a, b, depth)
+        return mod_null_eq(a, b)
+    if k == "array":
+        return isinstance(a, list) and isinstance(b, list) and len(a) == len(b) and all(typed_eq(mmv, t["element"], x, y, depth + 1) for x, y in zip(a, b))
+    if k == "map":
+        return isinstance(a, dict) and isinstance(b, dict) and set(a) == set(b) and all(typed_eq(mmv, t["value"], a[x], b[x], depth + 1) for x in a)
+    if k == "tuple":
+        return isinstance(a, list) and isinstance(b, list) and len(a) == len(b) and all(typed_eq(mmv, x, y, z, depth + 1) for x, y, z in zip(t["items"], a, b))
+    if k == "or":
+        return any(st.valid(i, a) and typed_eq(mmv, i, a, b, depth) for i in t["items"])
+    if k == "literal":
+        return props_eq({p["name"]: p for p in t["value"]["properties"]})
+    if k == "and":
+        ps = {}
+        for i in t["items"]:
+            for kk, vv in mmv.flat(i["name"]).items():
+                ps.setdefault(kk, vv)
+        return props_eq(ps)
+    return mod_null_eq(a, b) and mod_null_eq(b, a)
+
+
+def envelope_type(kind, entry):
+    """the JSON-RPC envelope of a message as a literal type (all envelope properties required: they are always written)"""
+    ID = {"kind": "or", "items": [{"kind": "base", "name": "integer"}, {"kind": "base", "name": "string"}]}
+    ps = [{"name": "jsonrpc", "type": {"kind": "stringLiteral", "value": "2.0"}}]
+    if kind in ("request", "response"):
+        ps.append({"name": "id", "type": ID})
+    if kind != "response":
+        ps.append({"name": "method", "type": {"kind": "stringLiteral", "value": entry["method"]}})
+        if "params" in entry:
+            ps.append({"name": "params", "type": entry["params"]})
+    else:
+        ps.append({"name": "result", "type": entry["result"]})
+    return {"kind": "literal", "value": {"properties": ps}}
+
+
 def judge(case, r):
     """which of C14 / C03 / C01 the REAL converter's result violates on a valid input: list of (property, detail)"""
     if not r["ok"]:
@@ -182,7 +253,8 @@ def judge(case, r):
         out.append(("C03", "ill-typed result: %s" % json.dumps(r.get("type_errors"))[:300]))
     if not r.get("unstr_ok"):
         out.append(("C01", "unstructuring raises %s" % r.get("err")))
-    elif not mod_null_eq(case["input"], unfl(r["unstr"])):
+    elif not (typed_eq(case["_mmv"], case["pytype"], case["input"], unfl(r["unstr"])) if case.get("pytype") is not None and case.get("_mmv") is not None
+              else mod_null_eq(case["input"], unfl(r["unstr"]))):
         out.append(("C01", "re-serialised JSON differs from the input"))
         if case["kind"].startswith("site") or case["kind"] == "alias-target":
             out.append(("C14", "parsed as an alternative for which the value is not valid (content lost or changed)"))
@@ -191,6 +263,27 @@ def judge(case, r):
 
 def finding_keys(trace):
     return ["union=%s|leaf=%s" % (u.replace(" ", ""), p) for u, p in trace]
+
+
+def attach_types(mmv, cases):
+    """metamodel type of each case's target (from its mmty tag), for the type-directed round-trip oracle"""
+    import re
+    byreq = {r["method"]: r for r in mmv.doc["requests"]}
+    byntf = {r["method"]: r for r in mmv.doc["notifications"]}
+    for c in cases:
+        m = re.match(r'\((TRef|resp_ty|req_ty|notif_ty) "((?:[^"]|"")*)"\)$', c.get("mmty") or "")
+        if not m:
+            continue
+        kind, name = m.group(1), m.group(2).replace('""', '"')
+        c["_mmv"] = mmv
+        if kind == "TRef":
+            c["pytype"] = mmlib.ref(name)
+        elif kind == "resp_ty" and name in byreq:
+            c["pytype"] = envelope_type("response", byreq[name])
+        elif kind == "req_ty" and name in byreq:
+            c["pytype"] = envelope_type("request", byreq[name])
+        elif kind == "notif_ty" and name in byntf:
+            c["pytype"] = envelope_type("notification", byntf[name])
 
 
 def run_stream(chk, cases, tag, model=True):
@@ -288,6 +381,7 @@ def check_property(chk, prop, streams, extra_gen=()):
         if "rand" in streams:
             n = 1 if chk.tier == "quick" else 12
             cases += rand_cases(mmv, pkg, rng, n, n)
+        attach_types(mmv, cases)
         verdict, real, failing = run_stream(chk, cases, prop, model=ok)
     dist = {}
     for c in cases:
@@ -299,7 +393,7 @@ def check_property(chk, prop, streams, extra_gen=()):
     chk.obligation("correspondence:Sem-vs-real-converter", nbad == 0, "%d cases, %d disagreements (codes: %s)" % (len(cases), nbad, sorted({v for v in verdict if v})))
     if nbad:
         i = [k for k, v in enumerate(verdict) if v][0]
-        fails.append(("correspondence", "LSP.Sem vs converter", json.dumps({"case": cases[i], "code": verdict[i], "impl_ok": real[i]["ok"]})[:1500]))
+        fails.append(("correspondence", "LSP.Sem vs converter", json.dumps({"case": {k: v for k, v in cases[i].items() if k in ("target", "input", "kind", "site")}, "code": verdict[i], "impl_ok": real[i]["ok"]})[:1500]))
     if cases:
         chk.sample({"target": cases[0]["target"], "site": cases[0].get("site"), "input": cases[0]["input"]})
         chk.sample({"target": cases[-1]["target"], "site": cases[-1].get("site"), "input": cases[-1]["input"]})
@@ -371,7 +465,7 @@ def confirm_witness(prop, o):
     if not ent:
         return False
     c = {"target": ent["target"], "input": ent["input"], "kind": "witness"}
-    r = CS.real_run([c])["results"][0]
+    r = CS.real_run([{"target": c["target"], "input": c["input"]}])["results"][0]
     return any(p_ == prop for p_, _ in judge(dict(c, kind="site"), r))
 
 
